@@ -277,3 +277,14 @@ package types
 //@   props C13
 //@   requires validBech32(m.Authority)
 //@   ensures len(signers) == 1 && signers[0] == addrOf(m.Authority)
+
+// stored bytes of a registration / a record / a limit (used by the genesis import contract)
+//@ prelude
+//@ (define-fun wcBytes ((w wrkchain.WrkChain)) (Slice Int) (marshal.wrkchain.WrkChain w))
+//@ (define-fun blkBytes ((b wrkchain.WrkChainBlock)) (Slice Int) (marshal.wrkchain.WrkChainBlock b))
+//@ (define-fun limBytes ((id Int) (n Int)) (Slice Int) (marshal.wrkchain.WrkChainStorageLimit (mk.wrkchain.WrkChainStorageLimit id n)))
+//@ (define-fun isBlockKey ((k wrkchain.Key)) Bool ((_ is kBlock) k))
+//@ (define-fun blockKeyId ((k wrkchain.Key)) Int (kBlock.id k))
+//@ (define-fun isWrkChainKey ((k wrkchain.Key)) Bool ((_ is kWrkChain) k))
+//@ (define-fun isLimitKey ((k wrkchain.Key)) Bool ((_ is kLimit) k))
+//@ end
